@@ -22,7 +22,7 @@ ASSUMPTIONS = [
     "timestamp form only for local datetimes whose epoch value has ten digits",
 ]
 CHUNK = 1500
-FORMS = ["absolute", "absolute+zone", "relative", "timestamp", "custom-format"]
+FORMS = ["absolute", "absolute+zone", "relative", "relative+zone", "timestamp", "custom-format"]
 AWARE = [None, True, False]
 STR_ZONES = [("+0530", 19800), ("-0800", -28800), ("UTC", 0), ("EST", -18000)]
 LOCALS = [datetime(y, m, 15, 12, 34, 56) for y in (1975, 2005, 2030) for m in (1, 4, 7, 10)]
@@ -106,7 +106,7 @@ def spaces(tier, seed):
         Product("pairs-representative", {"A": REP, "B": REP, "w": [1, 2, 4, 6, 9, 11], "form": FORMS, "aware": [None, True],
                                          "tzenv": ["UTC"]}),
         Product("other-tz-database-names-as-TIMEZONE", {"A": sorted(set(pytz.all_timezones) - set(pytz.common_timezones)),
-                                                       "B": [None, "UTC"], "w": range(len(LOCALS)), "form": [f for f in FORMS if f != "absolute+zone"],
+                                                       "B": [None, "UTC"], "w": range(len(LOCALS)), "form": [f for f in FORMS if f not in ("absolute+zone", "relative+zone")],
                                                        "aware": AWARE, "tzenv": ["UTC"]},
                 note="(forms in which TIMEZONE is the source zone) deprecated/alias tz-database names incl. those that are also library abbreviations (CET, EET, MET, WET, EST5EDT, Etc/GMT+N): TIMEZONE resolves through the tz database first"),
         Product("local-process-zone", {"tzenv": TZENVS, "A": ["local", None], "B": [None, "UTC", "Asia/Tokyo", "America/New_York"],
@@ -157,7 +157,7 @@ def _run(sub, c):
     try:
         if form in ("absolute", "custom-format", "relative"):
             inst = za.localize(W, is_dst=None)
-        elif form == "absolute+zone":
+        elif form in ("absolute+zone", "relative+zone"):
             inst = None
         else:
             inst = pytz.utc.localize(W)
@@ -177,6 +177,23 @@ def _run(sub, c):
         named_zone = True
         # TIMEZONE re-expresses the instant unless it is 'local' (then the string's own zone is kept)
         target = B or (a_name if A not in ("local", None) else None)
+    elif form == "relative+zone":
+        zname, zsec = STR_ZONES[(c.get("w", 0) + len(str(A))) % len(STR_ZONES)]
+        s = "in 2 hours " + zname
+        st["RELATIVE_BASE"] = W
+        zz = pytz.FixedOffset(zsec // 60)
+        if A in ("local", None):
+            start = zz.localize(W)                     # a naive base is read in the string's own zone
+        else:
+            try:
+                start = za.localize(W, is_dst=None).astimezone(zz)
+            except (pytz.NonExistentTimeError, pytz.AmbiguousTimeError):
+                return None
+        inst = start + timedelta(hours=2)
+        named_zone = True
+        target = B
+        if B is None:
+            e0 = inst
     elif form == "relative":
         s = "in 2 hours"
         st["RELATIVE_BASE"] = W
@@ -195,7 +212,10 @@ def _run(sub, c):
             return None
         s = str(n)
         target = B or a_name
-    if target is None:
+    if target is None and form == "relative+zone":
+        exp_wall = inst.replace(tzinfo=None)
+        exp_off = inst.utcoffset()
+    elif target is None:
         exp_wall = W
         exp_off = inst.utcoffset()
     else:
